@@ -3,6 +3,6 @@ NEXT GenNext
 CONSTANTS
     Keys <- KeysG
     Parent <- ParentG
-    FileMetas = {"f1", "f2"}
+    FileMetas = {"f1", "f2", "f3", "f4"}
     FileHashes = {"h1", "h2"}
     Root = ""
